@@ -364,8 +364,8 @@ theorem stage4_eq {fs : Files} {lines : List Str} {A : Assembly} (st : Stages fs
   dsimp only at h
   split at h
   · rename_i hinc
-    have e := expand_noinclude fs 63 [] parsed hinc
-    rw [show (63 : Nat) + 1 = 64 from rfl, a1] at e
+    have e := expand_noinclude fs fs.length [] parsed hinc
+    rw [show fs.length + 1 = includeFuel fs from rfl, a1] at e
     cases e
     rw [a2] at h; dsimp only at h
     rw [a3] at h; dsimp only at h
@@ -464,8 +464,8 @@ theorem stageT_eq {fs : Files} {lines : List Str} {A : Assembly} (st : Stages fs
   dsimp only at h
   split at h
   · rename_i hinc
-    have e := expand_noinclude fs 63 [] parsed hinc
-    rw [show (63 : Nat) + 1 = 64 from rfl, a1] at e
+    have e := expand_noinclude fs fs.length [] parsed hinc
+    rw [show fs.length + 1 = includeFuel fs from rfl, a1] at e
     cases e
     rw [a2] at h
     simpa using h
